@@ -36,6 +36,11 @@ type rcell struct {
 	Ur   int    `json:"ur"`
 	Tern string `json:"tern"`
 	u    string
+	// exact integer / float64 reading of the text, whatever its size (compressNumeric)
+	hasBI bool
+	bi    int64
+	hasBF bool
+	bf    float64
 }
 
 func trimSp(s string) string { return strings.Trim(s, " \t\n\r\v\f \u0085") }
@@ -50,10 +55,16 @@ func classify(text string, null bool) rcell {
 	c.IsS = true
 	t := trimSp(text)
 	c.u = strings.ToUpper(t)
-	if i, err := strconv.ParseInt(t, 10, 64); err == nil && i > -(1<<29) && i < (1<<29) {
-		c.HasI, c.I = true, i
+	if i, err := strconv.ParseInt(t, 10, 64); err == nil {
+		c.hasBI, c.bi = true, i
+		if i > -(1<<29) && i < (1<<29) {
+			c.HasI, c.I = true, i
+		}
 	}
 	if f, err := strconv.ParseFloat(t, 64); err == nil {
+		if !math.IsNaN(f) && !math.IsInf(f, 0) {
+			c.hasBF, c.bf = true, f
+		}
 		switch {
 		case math.IsNaN(f):
 			c.HasF, c.Fk = true, "nan"
@@ -80,6 +91,74 @@ func classify(text string, null bool) rcell {
 		c.HasD, c.D = true, tm.Unix()-1300000000
 	}
 	return c
+}
+
+// compressNumeric: TLC has 32-bit integers and no floats.  When an event holds numbers outside the repertoire
+// classify can state exactly (integers beyond 2^29, floats that are not halves), all numeric cells of the event
+// are re-expressed order-isomorphically: i = rank of the exact integer among the integers of the event, f2 =
+// twice the rank of the float64 reading among all float64 readings (an integer compared with a float is
+// compared as float64, so 2^53+1 and 2^53 get the same f2 but different i).  Comparisons, ties and bucket
+// equality are preserved; sums are not - only events without arithmetic use it.  Returns whether it applied.
+func compressNumeric(tables ...[][]rcell) bool {
+	need := false
+	ints := map[int64]bool{}
+	flts := map[float64]bool{}
+	for _, t := range tables {
+		for _, r := range t {
+			for _, c := range r {
+				if c.N {
+					continue
+				}
+				if (c.hasBI && !c.HasI) || (c.HasF && c.Fk == "odd") {
+					need = true
+				}
+				if c.hasBI {
+					ints[c.bi] = true
+				}
+				if c.hasBF {
+					flts[c.bf] = true
+				}
+			}
+		}
+	}
+	if !need {
+		return false
+	}
+	il := make([]int64, 0, len(ints))
+	for v := range ints {
+		il = append(il, v)
+	}
+	sort.Slice(il, func(a, b int) bool { return il[a] < il[b] })
+	fl := make([]float64, 0, len(flts))
+	for v := range flts {
+		fl = append(fl, v)
+	}
+	sort.Float64s(fl)
+	ir := map[int64]int64{}
+	for k, v := range il {
+		ir[v] = int64(k)
+	}
+	fr := map[float64]int64{}
+	for k, v := range fl {
+		fr[v] = int64(k)
+	}
+	for _, t := range tables {
+		for _, r := range t {
+			for j := range r {
+				c := &r[j]
+				if c.N {
+					continue
+				}
+				if c.hasBI {
+					c.HasI, c.I = true, ir[c.bi]
+				}
+				if c.hasBF {
+					c.HasF, c.Fk, c.F2 = true, "num", 2*fr[c.bf]
+				}
+			}
+		}
+	}
+	return true
 }
 
 // rankStrings assigns ur = rank of the upper-cased trimmed text in byte order, over all given rows.
@@ -175,6 +254,22 @@ func genNum(maxv int) colGen {
 		}
 		return strconv.Itoa(v), false
 	}
+}
+
+// integers that only int64 tells apart (neighbours above 2^53, at 10^18 and at the int64 bounds)
+func genBig(r *core.Run, row int) (string, bool) {
+	rng := r.Rand
+	if rng.Intn(10) == 0 {
+		return "", true
+	}
+	bases := []int64{9007199254740992, -9007199254740992, 1000000000000000000, -1000000000000000000, 9223372036854775800, -9223372036854775800, 0}
+	v := bases[rng.Intn(len(bases))] + int64(rng.Intn(7)-3)
+	// (no floats among them: an integer is compared with a float as float64, which makes 2^53 = 2^53+1.0 = 2^53+1
+	// while 2^53 < 2^53+1 - such a column has no order to sort by)
+	if rng.Intn(12) == 0 {
+		return " " + strconv.FormatInt(v, 10), false
+	}
+	return strconv.FormatInt(v, 10), false
 }
 
 // plain integers (canonical spelling)
